@@ -365,3 +365,15 @@ def check(ctx):
                        % str(e)[:120])
     ctx.borrow('C04.PARSE', _t7, only=['C01.T7'])
 
+    # ... and what the text parser hands back is what the reducer table
+    # built: no later pass replaces role checks by something else
+    def _driver(ctx):
+        from . import c01 as _c01
+        try:
+            classes, pstate, table, effects, model = _c01.grammar_model(ctx)
+            _c01.check_text_driver(ctx, pstate)
+        except AnalysisError as e:
+            ctx.assume('C04.PARSE(TEXT-DRIVER) not decided (C01 declines: '
+                       '%s)' % str(e)[:120])
+    ctx.borrow('C04.PARSE', _driver, only=['C01.TEXT-DRIVER'])
+
